@@ -102,6 +102,14 @@ CLAIMED["C13"] = (
     "parsed back for every (vehicle model, type, admissible cost) and pairs of them.",
     "alphanumeric non-empty map names; numbers >= 1; 1-3 prediction ids; the C regex engine is replaced by the proved "
     "unambiguity of the template; str(int)/int(str) contract assumed", "2/C13")
+CLAIMED["C14"] = (
+    "For every trajectory type (PM, ST, KS, KST, MB, input and PM-input vectors; single and cooperative) the real solution "
+    "writer builds its element tree from symbolic state values, time steps and computation time, and the real reader parses "
+    "that tree back; z3 proves that every value read back is the very term that was written (no arithmetic, no lossy "
+    "re-formatting, right field), that time steps come back ascending whatever the document order, and - against the shipped "
+    "XSD parsed at run time - that element names match and every numeral lies in the lexical space of its XSD type.",
+    "element tree handed from writer to reader (serialiser contract); str(float)/float(str) and str(int)/int(str) contracts; "
+    "date attribute, minidom pretty printing and processor_name='auto' outside", "2/C14")
 NOT_YET = {}
 
 props = [json.loads(l) for l in open(os.path.join(ROOT, "properties.jsonl"))]
